@@ -277,6 +277,11 @@ def run(rep: Report, tier: str) -> None:
     # ---- R08.12: the Python-side period patterns accept every period of the calendar ----
     rep.rule("R08.12", "the patterns check_time_period consults accept every period number 1..limit (PeriodDuration.periods) of every indicator, compact and hyphenated")
     python_period_patterns_cover_limits(P, rep, "R08.12")
+    # ---- R08.13: periods are stored in the one canonical text the cumulative operators order by (shared with C21) ----
+    rep.rule("R08.13", "_normalize_time_period_columns: one UPDATE with vtl_period_normalize per Time_Period column whose row filter selects every accepted non-canonical spelling")
+    from sa.checks.c19 import period_limits as _pl13
+    from sa.checks.c21 import normalise_update_covers_spellings as _nucs
+    _nucs(P, rep, "R08.13", _pl13(P))
     rep.assumptions = ["DuckDB integer semantics: `//` truncates toward zero, `%` keeps the sign of the dividend (checked once against the "
                        "installed DuckDB while writing the rule; not executed by the check)",
                        "calendar facts: ISO years have 52 or 53 weeks, years 365 or 366 days"]
